@@ -715,6 +715,15 @@ class C13(Prop):
             for name in SYMLINK_NAMES:
                 for cfg in ENUM_CONFIGS:
                     yield self._case(name, cfg)
+        # histories on one loader object: what a traversal name collapses to is loaded first
+        for name, warm in (("sub/../x.html", ["x.html"]), ("nosuch/../x.html", ["x.html"]), ("a/../x", ["x", "x.html"]),
+                           ("a/../a/x.html", ["a/x.html"]), ("./a/../x.html", ["x.html"]), ("a/sub/../../x.html", ["x.html"]),
+                           ("sub/../x", ["x", "x.liquid", "x.html"]), ("x.html/../x.html", ["x.html"]),
+                           ("a//x.html", ["a/x.html"]), ("./x.html", ["x.html"])):
+            for cfg in ENUM_CONFIGS:
+                case = self._case(name, cfg)
+                case["warm"] = warm
+                yield case
         # histories across loader objects: a neighbour with other search paths loads the name first
         for name in control_names():
             for kind in KINDS:
@@ -810,6 +819,15 @@ class C13(Prop):
                     except Exception:  # noqa: BLE001, S110
                         pass
                     res.labels.append("neighbour-loader")
+                if case.get("warm"):
+                    # the same loader object has served the names this one collapses to (a cache keyed by a
+                    # normalised name would now answer without ever looking at the name that was asked for)
+                    for pre in case["warm"]:
+                        try:
+                            env.get_template(pre)
+                        except Exception:  # noqa: BLE001, S110
+                            pass
+                    res.labels.append("warmed-loader")
                 try:
                     tmpl, data = prepare(env, access, name)
                 except _LiteralMismatch:
